@@ -49,6 +49,7 @@ func c01URLs() []string {
 		"http://example.org/example.org/example.org", "https://google.com", "http://a.com", "http://x.com/ad", "http://adsa6",
 		"http://пример.рф/реклама", "http://x.com/ads/баннер.gif", "http://x.com/РЕКЛАМА/ёж", "http://localhost/ads/x.js",
 		"http://example.org/\u023a/adsa6", "http://x.com/\u023e\u023a\u023e/q?adsgp", "http://x.com/\u212a\u212a/banner_ad", "http://Example.ORG/ads/adsa6",
+		"http://x.com/ad\u017fa6/ad\u017fgp", "http://example.org/ad\u017f/x.js", "http://x.com/ad\u017f/x", "http://x.com/\u212a/ad\u017fa6", // U+017F and U+212A fold to s and k
 		"https://example.org/#promo", "http://x.com/app#!/promo-page", "http://x.com/page.html#top", "http://example.org/ads/x.js#frag", "http://x.com/q#!/promo-page/app#!/promo"}
 	for _, c := range windowColliders {
 		u = append(u, "http://x.com/"+c[0], "http://x.com/q/"+c[1], "http://x.com/"+c[0]+"/x/"+c[0], "http://"+c[1])
@@ -214,6 +215,15 @@ func genC01(t *rapid.T) c01Case {
 		lines = append(lines, pat+"$domain="+strings.Join(ds, "|"))
 		models = append(models, NetModel{Pat: pat, DPerm: []string{ds[len(ds)-1], ds[len(ds)/2], ds[0]}})
 	}
+	domainBlock := chance(t, "domain-bucket-block", 6)
+	if domainBlock {
+		// short-pattern rules in the $domain buckets of a domain and of its sub-domain, one rule in both
+		for i := pick(t, "domain-bucket-size", []int{2, 4, 5, 6, 3}); i > 0; i-- {
+			lines = append(lines, fmt.Sprintf("/a%d$domain=dbucket.net", i))
+		}
+		lines = append(lines, "/a9$domain=dbucket.net|sub.dbucket.net", "/b1$domain=sub.dbucket.net", "/b2$domain=sub.dbucket.net|a.com")
+		models = append(models, NetModel{Pat: "/a9", DPerm: []string{"dbucket.net", "sub.dbucket.net"}}, NetModel{Pat: "/b1", DPerm: []string{"sub.dbucket.net"}})
+	}
 	mass := chance(t, "mass-block", 25)
 	if mass {
 		// several hundred distinct rules sharing one single-window shortcut: the histogram counter of that window grows large
@@ -239,6 +249,10 @@ func genC01(t *rapid.T) c01Case {
 		}
 		if !q.Host && chance(t, "fixed-url", 3) {
 			q.URL = pick(t, "fixed", c01FixedURLs)
+		}
+		if domainBlock && chance(t, "domain-block-query", 3) {
+			q = Q{URL: pick(t, "dbu", []string{"http://x.com/a1/a2/a3/a4/a5/a6/a9/b1/b2", "http://x.com/b2/b1/a9/a1", "http://x.com/a9/b1"}),
+				Src: pick(t, "dbs", []string{"http://sub.dbucket.net/", "http://dbucket.net/", "http://x.sub.dbucket.net/"}), Typ: "script"}
 		}
 		if chance(t, "zero-hash-src", 15) && !q.Host {
 			q.Src = "http://" + pick(t, "zsub", []string{"", "www."}) + pick(t, "zero-hash-src-name", zeroHashNames) + "/"
